@@ -17,18 +17,22 @@ theorem getD_eq_of_append_eq {α} {p q t u : List α} (h : p ++ t = q ++ u) (d :
     (hp : i < p.length) (hq : i < q.length) : p.getD i d = q.getD i d := by
   rw [← getD_append_left p t d i hp, h, getD_append_left q u d i hq]
 
-/-- A complete TLSPlaintext handshake record within the reader's bound. -/
-structure IsRecord (r : Bytes) : Prop where
+/-- A complete TLSPlaintext handshake record: header, handshake content type, and as long as its
+length field says. -/
+structure IsFrame (r : Bytes) : Prop where
   hdr : 5 ≤ r.length
   ty : r.getD 0 0 = 0x16
   len : Spec.recordLen r = r.length
+
+/-- … within the reader's bound. -/
+structure IsRecord (r : Bytes) : Prop extends IsFrame r where
   bound : r.length ≤ 65536
 
 theorem neededOf_eq_recordLen (p : Bytes) : neededOf p = Spec.recordLen p := by
   simp [neededOf, Spec.recordLen, be16, readerLenHi, readerLenLo, readerLenAdd]
 
 /-- a buffer that shares its first five bytes with the record has the record's `needed`. -/
-theorem needed_of_common {r p t u : Bytes} (hr : IsRecord r) (h : p ++ t = r ++ u) (hp : 5 ≤ p.length) :
+theorem needed_of_common {r p t u : Bytes} (hr : IsFrame r) (h : p ++ t = r ++ u) (hp : 5 ≤ p.length) :
     neededOf p = r.length ∧ p.getD 0 0 = 0x16 := by
   have h5 := hr.hdr
   have e3 := getD_eq_of_append_eq h (0 : UInt8) 3 (by omega) (by omega)
@@ -41,7 +45,7 @@ theorem needed_of_common {r p t u : Bytes} (hr : IsRecord r) (h : p ++ t = r ++ 
   · rw [e0, hr.ty]
 
 /-- before completion: the bytes are buffered, nothing is reported -/
-theorem step_before (parse : Bytes → PR σ) {r b seg rest tail : Bytes} (hr : IsRecord r)
+theorem step_before (parse : Bytes → PR σ) {r b seg rest tail : Bytes} (hr : IsFrame r)
     (h : b ++ seg ++ rest = r ++ tail) (hlt : (b ++ seg).length < r.length) :
     ({ buffer := b, signature := none } : Reader σ).addBytes parse seg =
       ({ buffer := b ++ seg, signature := none }, Out.none) := by
@@ -65,7 +69,7 @@ theorem step_complete (parse : Bytes → PR σ) {r b seg rest tail : Bytes} (hr 
       | .notHello => (Reader.init, Out.none)
       | .err => ({ buffer := b ++ seg, signature := none }, Out.errParse) := by
   have h5' : 5 ≤ (b ++ seg).length := by have := hr.hdr; omega
-  obtain ⟨hn, ht⟩ := needed_of_common hr h h5'
+  obtain ⟨hn, ht⟩ := needed_of_common hr.toIsFrame h h5'
   have htake : (b ++ seg).take r.length = r := by
     have := congrArg (List.take r.length) h
     rw [List.take_append_of_le_length hge, List.take_left' rfl] at this
